@@ -224,15 +224,9 @@ def lint():
 
 
 def ensure_built():
-    """make (no-op when up to date) under a lock; returns (ok, log_tail)."""
-    lock = open(os.path.join(COQ, '.build.lock'), 'w')
-    fcntl.flock(lock, fcntl.LOCK_EX)
-    try:
-        p = subprocess.run(['sh', os.path.join(COQ, 'build.sh')], capture_output=True, text=True, timeout=3600)
-        return p.returncode == 0, (p.stdout + p.stderr)[-3000:]
-    finally:
-        fcntl.flock(lock, fcntl.LOCK_UN)
-        lock.close()
+    """make (no-op when up to date); build.sh serialises itself with flock. Returns (ok, log_tail)."""
+    p = subprocess.run(['sh', os.path.join(COQ, 'build.sh')], capture_output=True, text=True, timeout=3600)
+    return p.returncode == 0, (p.stdout + p.stderr)[-3000:]
 
 
 def check_props(pid, coqchk=False):
